@@ -64,6 +64,21 @@ def findings():
     out.append(dict(flag="cg_safe_div_subnormal", present=present, witness="cg(PSD(Dense([[4]], complex64)), [[2,0]]) and cg(PSD(Dense([[4,1],[1,3]], float32)), [[2,0],[1,0]], x0=ones((2,2)))", got=got,
                     expected="the zero right-hand-side column is returned as exactly 0 in every dtype",
                     what="do_safe_div replaces a vanishing denominator by 1e-40, a float32 subnormal: a zero right-hand-side column is returned as NaN in complex64 (0/1e-40 overflows in the complex division) and, with x0 != 0, in float32 (x0/1e-40 overflows)"))
+    # the zero test of do_safe_div is the absolute 1e-40, applied to p^H A p and gamma, which scale with the operator and preconditioner
+    try:
+        Aw = np.diag([1.0, 2.0, 3.0])
+        bw = np.array([1.0, 1.0, 1.0])
+        x, _ = cg(cola.PSD(Dense(Aw)), bw, P=Dense(1e-21 * np.eye(3)), max_iters=2, tol=1e-12)
+        xo = L.krylov_optimum(Aw, np.eye(3), bw, np.zeros(3), 2)
+        d = float(np.linalg.norm(np.asarray(x) - xo) / np.linalg.norm(xo))
+        present = bool(not np.isfinite(d) or d > 1e-6)
+        got = "relative distance %.3g between the 2-step iterate and the Krylov optimum" % d
+    except Exception as e:  # noqa
+        present, got = True, "raised %s: %s" % (type(e).__name__, str(e)[:80])
+    out.append(dict(flag="cg_absolute_small_guard", present=present, witness="cg(PSD(Dense(diag(1,2,3))), [1,1,1], P=Dense(1e-21*I), max_iters=2, tol=1e-12)", got=got,
+                    expected="the same iterate as with P = I (CG is invariant under a positive scaling of the preconditioner)",
+                    what="do_safe_div calls a denominator zero when it is below the absolute 1e-40; p^H A p scales like scale(P)^2 * scale(A) and gamma like scale(P), so for a valid "
+                         "SPD preconditioner or operator of small scale (scale(P)^2*scale(A) < 1e-40) the step length is gamma/1e-40-or-1 and the iterates are not Krylov-optimal"))
     return out
 
 
@@ -76,6 +91,19 @@ def gen_system(rs, ctx, sid, nmax, kmax_exp, flag_present, region=False):
     A = L.make_spd(rs, n, cplx, kappa, kind)
     pk = L.PRECONDS[int(rs.integers(0, len(L.PRECONDS)))]
     Pop, Pd = L.make_precond(rs, pk, A, cplx)
+    # overall scales of the operator and of the preconditioner, jointly and separately, from 1e-25 to 1e25: CG is invariant
+    # under both (apart from the scale of x), only an absolute or mis-scaled threshold can notice
+    sA = sP = 1.0
+    u = rs.random()
+    if u < 0.45:
+        sA = float(10 ** rs.uniform(-25, 25)) if rs.random() < 0.7 else 1.0
+        sP = float(10 ** rs.uniform(-25, 25)) if (rs.random() < 0.7 or sA == 1.0) else 1.0
+        if rs.random() < 0.2:
+            sP = sA
+        A = A * sA
+        if sP != 1.0:
+            Pd = Pd * sP
+            Pop = Dense(Pd)
     nc = int(rs.choice([1, 1, 2, 3]))
     B = rs.normal(size=(n, nc)) + (1j * rs.normal(size=(n, nc)) if cplx else 0)
     x0kind = str(rs.choice(["none", "none", "zeros", "random", "warm"]))
@@ -101,7 +129,7 @@ def gen_system(rs, ctx, sid, nmax, kmax_exp, flag_present, region=False):
         X0 = (Xs + float(rs.choice([1e-10, 1e-8, 1e-6, 1e-4])) * np.linalg.norm(Xs, axis=0, keepdims=True) / np.sqrt(n) * rnd).astype(B.dtype)
     else:
         X0 = None if x0kind == "none" else (np.zeros_like(B) if x0kind == "zeros" else rnd)
-    return dict(A=A, Pop=Pop, Pd=Pd, B=B, X0=X0, cplx=cplx, sys_id=sid, kappa=kappa, kind=kind, pk=pk, x0kind=x0kind,
+    return dict(A=A, Pop=Pop, Pd=Pd, B=B, X0=X0, cplx=cplx, sys_id=sid, kappa=kappa, kind=kind, pk=pk, x0kind=x0kind, sA=sA, sP=sP,
                 spread=spread, n=n, nc=nc, vector_api=bool(nc == 1 and rs.random() < 0.5))
 
 
@@ -165,6 +193,7 @@ def run(ctx):
     flag = any(f["flag"] == "cg_x0_unscaled" and f["present"] for f in fnd)
     x0vec_ok = not any(f["flag"] == "iterative_x0_vector" and f["present"] for f in fnd)
     div_small = any(f["flag"] == "cg_safe_div_subnormal" and f["present"] for f in fnd)
+    abs_guard = any(f["flag"] == "cg_absolute_small_guard" and f["present"] for f in fnd)
     rs = L.np_rng(ctx)
     n_sys = ctx.budget(140, 500)
     n_stop = ctx.budget(240, 900)
@@ -245,8 +274,11 @@ def run(ctx):
     # ---- independent oracle on every case
     opt_checked, opt_worst = 0, 0.0
     opt_rel_checked, opt_rel_worst = 0, 0.0
+    guard_cases = 0
     for i, (c, o, st) in enumerate(zip(cases, obs, stab)):
         c["check_opt"] = bool(st["same_steps"] and st["sens_A"] <= 1e-9)
+        c["guard_region"] = bool(abs_guard and st.get("guard_hit", True))      # region of the recorded defect cg_absolute_small_guard
+        guard_cases += int(c["guard_region"])
         c["sens_rel"] = st.get("sens_rel", np.inf) if st["same_steps"] else np.inf
         bad, info = L.oracle(c, o, flag, OPT_TOL)
         opt_rel_checked += int("opt_dist_rel" in info)
@@ -328,7 +360,7 @@ def run(ctx):
         n = int(rs.integers(1, 9))
         dt = [np.float32, np.complex64][int(rs.integers(0, 2))]
         cplx = dt is np.complex64
-        A = L.make_spd(rs, n, cplx, float(10 ** rs.uniform(0, 1.5)), "uniform").astype(dt)
+        A = (L.make_spd(rs, n, cplx, float(10 ** rs.uniform(0, 1.5)), "uniform") * (10.0 ** rs.uniform(-12, 12) if rs.random() < 0.5 else 1.0)).astype(dt)
         nc = int(rs.integers(1, 4))
         B = (rs.normal(size=(n, nc)) + (1j * rs.normal(size=(n, nc)) if cplx else 0)).astype(dt)
         X0 = None if rs.random() < 0.5 else (rs.normal(size=(n, nc)) + (1j * rs.normal(size=(n, nc)) if cplx else 0)).astype(dt)
@@ -373,7 +405,8 @@ def run(ctx):
              "the contract oracle, n 1..%d in Coq, 30..%d oracle-only), 1-3 columns with norms spread over 12 orders (absolute 1e-14..1e8) and zero columns, x0 none/zero/random/warm start, "
              "5 preconditioner kinds, tol 1e-12..1e-1, max_iters 0..2n; non-trivial = n>=2 and at least one step; distinct by (system, tol, max_iters)" % (nmax, ctx.budget(120, 200)),
         samples=samples, mismatches=mism, findings=fnd,
-        extra=dict(compared_in_coq=len(items), long_runs_compared_in_coq=len(longs), long_runs=sum(1 for c in cases if c["stream"] == "long_iterates"),
+        extra=dict(compared_in_coq=len(items), long_runs_compared_in_coq=len(longs), absolute_guard_region_cases=guard_cases,
+                   operator_scale_decades=hist(None, lambda c: int(np.floor(np.log10(c.get("sA", 1.0))))), precond_scale_decades=hist(None, lambda c: int(np.floor(np.log10(c.get("sP", 1.0))))), long_runs=sum(1 for c in cases if c["stream"] == "long_iterates"),
                    max_steps_taken=max([o["steps"] for o in obs if o.get("ok")] + [0]), max_iters_histogram=hist(None, lambda c: ("<=50" if c["max_iters"] <= 50 else "51..128" if c["max_iters"] <= 128 else "129..1000" if c["max_iters"] <= 1000 else ">1000")), near_tie=len(nearset) + margin_ties, skipped_unstable=len(cases) - large - len(items) - margin_ties,
                    krylov_optimum_checked=opt_checked + large_opt, krylov_optimum_relative_to_remaining_error_checked=opt_rel_checked,
                    krylov_optimum_relative_worst=opt_rel_worst, krylov_optimum_worst_distance=opt_worst,
